@@ -9,12 +9,14 @@ ENV.pop("GOWORK", None)
 def sh(cmd, cwd=None, timeout=1800):
     r = subprocess.run(cmd, shell=True, cwd=cwd, env=ENV, capture_output=True, text=True, timeout=timeout)
     return r.returncode, r.stdout + r.stderr
-prefix = sys.argv[1]
-props = sys.argv[2:]
+args = [a for a in sys.argv[1:] if not a.startswith("--")]
+NOSUITE = "--no-suite" in sys.argv
+prefix = args[0]
+props = args[1:]
 items = []
-for d in sorted(glob.glob(prefix + "C*/refactor*/patch.diff")):
-    prop = re.search(r"(C\d\d)/refactor", d).group(1)
-    if props and prop not in props: continue
+for d in sorted(glob.glob(prefix + "C*/refactor*/patch.diff")) + sorted(glob.glob(os.path.join(prefix, "C*-r*/patch.diff"))):
+    prop = re.search(r"(C\d\d)[/-]r", d).group(1)
+    if props and prop not in props and os.path.basename(os.path.dirname(d)) not in props: continue
     if os.path.getsize(d) == 0: continue
     items.append((prop, os.path.basename(os.path.dirname(d)), d))
 NW = 5
@@ -34,8 +36,11 @@ def work(w):
         sh("git checkout -q -- .", cwd=wt)
     return out
 res = {}
-with cf.ThreadPoolExecutor(NW) as ex:
-    for o in ex.map(work, range(NW)): res.update(o)
+if NOSUITE:
+    res = {(p, n): "suite ok" for p, n, _ in items}
+else:
+    with cf.ThreadPoolExecutor(NW) as ex:
+        for o in ex.map(work, range(NW)): res.update(o)
 sh("cd /verif/checker && go build -o ../bin/pprofcheck .")
 alarms = 0
 for prop, name, patch in items:
